@@ -112,7 +112,7 @@ def build(job):
     w = world()
     workload = make_workload(job["wl"])
     mon = DedupMonitor()
-    ex = Explorer(w, workload, [mon], job.get("budget"), trust_negative=job["trust"],
+    ex = Explorer(w, workload, [mon], job.get("budget"), trust_negative=job["trust"], late_restart=True,
                   max_states=job.get("max_states", 200000), time_cap=job.get("time_cap", 1200))
     ex._mon = mon
     return ex
